@@ -179,9 +179,15 @@ let check_line (l : string) : string =
         let wc = List.concat (List.map (fun (x, c) -> if x = tg then [c] else []) wire) in
         let rec is_prefix a b = match a, b with [], _ -> true | x :: a', y :: b' -> N.eqb x y && is_prefix a' b' | _ -> false in
         if not (is_prefix wc contents) then bad (Printf.sprintf "ORACLE C08.group_replies_out_of_order tag=%d %s" tg where);
-        if not disconnected && List.length wc <> List.length rs then
+        (* members named by a Tflush may legitimately stay unanswered (C07 judges them) *)
+        let must = List.length (List.filter (fun r -> not r.flushed) rs) in
+        if not disconnected && (List.length wc < must || List.length wc > List.length rs) then
           bad (Printf.sprintf "ORACLE C08.group_request_starved tag=%d replies=%d of %d %s" tg (List.length wc) (List.length rs) where)
       end) tags;
+  (* oracle verdicts the harness itself reached (progress within a deadline): notes of the form Cxx.clause *)
+  List.iter (fun nt ->
+      if String.length nt > 4 && nt.[0] = 'C' && nt.[3] = '.' then bad (Printf.sprintf "ORACLE %s %s" nt where))
+    (String.split_on_char ',' note);
   (* C11 *)
   if disconnected && nclosed <> 1 then bad (Printf.sprintf "ORACLE C11.conn_closed_count=%d %s" nclosed where);
   if not disconnected && nclosed <> 0 then bad (Printf.sprintf "ORACLE C11.closed_without_disconnect %s" where);
